@@ -142,6 +142,19 @@ def run(ctx):
                       "the branch for the opening symbol Token.%s can finish without a test of the closing token that "
                       "raises: a query with an unbalanced %s is accepted instead of rejected" % (op, op),
                       desc="branch Token.%s closes or raises" % op)
+    # a closing symbol in term position is rejected, not taken as a search term
+    terms = [(n_, c) for (n_, c) in v.calls(lambda c: call_name(c) == "Expression")]
+    ctx.floor("R15.3", "plain-term constructions in the grouping parser", len(terms), 1)
+    for n_, c in terms:
+        need = [op + "End" for op in openers]
+        g = v.guard_for(n_, lambda t: all(any(isinstance(x, ast.Attribute) and x.attr == k for x in ast.walk(t)) for k in need),
+                        want_leave=("raise",))
+        g2 = v.guard_for(n_, lambda t: any(isinstance(x, ast.Attribute) and x.attr == "Tag" for x in ast.walk(t)) and
+                         any(isinstance(x, ast.Attribute) and x.attr == "kind" for x in ast.walk(t)))
+        ok = g is not None or (g2 is not None and g2[1] is True)
+        ctx.check(ok, "R15.3", gp.qualname, c, loc(gp, c),
+                  "a token in term position becomes a search term whatever its kind: a stray closing symbol (`]`, `)`, `}`, "
+                  "`a && )`) compiles instead of being rejected as unbalanced", desc="closing symbols rejected in term position")
     vp = view(ctx, parse)
     rets = [n_ for n_ in vp.cfg.nodes if n_.kind == "stmt" and isinstance(n_.ast, ast.Return)]
     for r in rets:
